@@ -243,7 +243,6 @@ func thorough(pr *rules.Property, base *core.Report, repo string, extra map[stri
 	cfgs := []subCfg{
 		{"tags=none", []string{"-tags", "none"}},
 		{"tags=sqlite,nomysql,nopostgres,nocockroach", []string{"-tags", "sqlite,nomysql,nopostgres,nocockroach"}},
-		{"tags=sqlite+tests", []string{"-tags", "sqlite", "-tests"}},
 		{"goarch=386", []string{"-tags", "none", "-goarch", "386"}},
 	}
 	baseKeys := map[string]core.Status{}
